@@ -24,6 +24,17 @@ var reloadUniverse = []string{
 }
 var reloadMethods = [][]string{nil, {"GET"}, {"POST", "GET"}, {"HEAD"}, {"GET"}}
 
+// what the processors of a flow require from the proxy (Flow.Req)
+var reloadReqs = []string{"", "body", "capture", "both", ""}
+
+func otherReq(r *c.Rng, cur string) string {
+	for {
+		if q := c.Pick(r, reloadReqs); q != cur {
+			return q
+		}
+	}
+}
+
 func adv(d int64) RStep { return RStep{Op: "advance", AdvanceNs: d} }
 
 const (
@@ -42,7 +53,8 @@ func randFlows(r *c.Rng, n int, avoid map[string]bool) *RCfg {
 			continue
 		}
 		seen[p] = true
-		cf.Flows = append(cf.Flows, Flow{ID: len(cf.Flows), URL: p, Methods: reloadMethods[r.Intn(len(reloadMethods))]})
+		cf.Flows = append(cf.Flows, Flow{ID: len(cf.Flows), URL: p, Methods: reloadMethods[r.Intn(len(reloadMethods))],
+			Req: c.Pick(r, reloadReqs)})
 	}
 	return cf
 }
@@ -79,7 +91,7 @@ func renumber(cf *RCfg) *RCfg {
 func copyCfg(cf *RCfg) *RCfg {
 	out := &RCfg{GRem: append([]bool{}, cf.GRem...), GDiag: append([]bool{}, cf.GDiag...)}
 	for _, f := range cf.Flows {
-		out.Flows = append(out.Flows, Flow{ID: f.ID, URL: f.URL, Methods: append([]string{}, f.Methods...)})
+		out.Flows = append(out.Flows, Flow{ID: f.ID, URL: f.URL, Methods: append([]string{}, f.Methods...), Req: f.Req})
 	}
 	for _, d := range cf.Decls {
 		out.Decls = append(out.Decls, Decl{Method: d.Method, URL: d.URL,
@@ -151,6 +163,48 @@ func related(r *c.Rng, a *RCfg, policies bool, rel string) *RCfg {
 				b.Decls[i].Method = "GET"
 			}
 		}
+	case "requirements", "req-overlap":
+		// the SAME filters (URL, methods: the same expressions); only what the
+		// processors of the flows require from the proxy changes (body of the
+		// message / request capture: dropped, added, exchanged). Policies: the
+		// plugins of every endpoint are exchanged (remedy <-> diagnosis, other
+		// names), at least one stays enabled.
+		for i := range b.Flows {
+			switch {
+			case rel == "requirements" && i == 0 && b.Flows[i].Req != "" && r.Bool():
+				b.Flows[i].Req = "" // the seeded shape: the flow stops needing anything
+			case rel == "requirements" || i == 0 || r.Bool():
+				b.Flows[i].Req = otherReq(r, b.Flows[i].Req)
+			}
+		}
+		for i := range b.Decls {
+			d := &b.Decls[i]
+			d.Rem, d.Diag = nil, nil
+			base := 10*(i+1) + 5
+			switch r.Intn(3) {
+			case 0:
+				d.Rem = []Plug{{Name: base, Enabled: true}}
+			case 1:
+				d.Diag = []Plug{{Name: base, Enabled: true}}
+			default:
+				d.Rem = []Plug{{Name: base, Enabled: r.Bool()}}
+				d.Diag = []Plug{{Name: base + 1, Enabled: true}}
+			}
+		}
+		if rel == "req-overlap" { // plus one filter leaving and one arriving
+			x := fresh(1, patternsOf(a))
+			if policies {
+				if len(b.Decls) > 1 {
+					b.Decls = b.Decls[:len(b.Decls)-1]
+				}
+				b.Decls = append(b.Decls, x.Decls...)
+			} else {
+				if len(b.Flows) > 1 {
+					b.Flows = b.Flows[:len(b.Flows)-1]
+				}
+				b.Flows = append(b.Flows, x.Flows...)
+			}
+		}
 	case "all-on": // a catch-all filter / an enabled global plugin appears
 		if policies {
 			if r.Bool() {
@@ -159,7 +213,8 @@ func related(r *c.Rng, a *RCfg, policies bool, rel string) *RCfg {
 				b.GDiag = []bool{false, true}
 			}
 		} else {
-			b.Flows = append(b.Flows, Flow{URL: c.Pick(r, []string{"*", ".*", "*"}), Methods: reloadMethods[r.Intn(2)]})
+			b.Flows = append(b.Flows, Flow{URL: c.Pick(r, []string{"*", ".*", "*"}), Methods: reloadMethods[r.Intn(2)],
+				Req: c.Pick(r, reloadReqs)})
 		}
 	case "diagnosis-free": // RevertToDiagnosisFree: the same configuration without diagnoses
 		b.GDiag = nil
@@ -187,7 +242,7 @@ func reloadHistories(r *c.Rng, policies bool, rounds int) []*ReloadCase {
 		}
 		return randFlows(r, r.Range(1, 3), nil)
 	}
-	rels := []string{"same", "overlap", "disjoint", "superset", "subset", "methods"}
+	rels := []string{"same", "overlap", "disjoint", "superset", "subset", "methods", "requirements", "req-overlap"}
 	if policies {
 		rels = append(rels, "diagnosis-free", "disabled")
 	}
@@ -228,7 +283,8 @@ func reloadHistories(r *c.Rng, policies bool, rounds int) []*ReloadCase {
 			add("empty", loadStep(a, false), loadStep(&RCfg{}, false), adv(nsTTL), loadStep(copyCfg(a), false), adv(nsTTL))
 		}
 		// random walk
-		pool := []*RCfg{a, all, related(r, a, policies, "overlap"), related(r, a, policies, "disjoint"), related(r, a, policies, "subset")}
+		pool := []*RCfg{a, all, related(r, a, policies, "overlap"), related(r, a, policies, "disjoint"), related(r, a, policies, "subset"),
+			related(r, a, policies, "requirements"), related(r, a, policies, "req-overlap")}
 		steps := []RStep{loadStep(copyCfg(c.Pick(r, pool)), false)}
 		for m := r.Range(4, 9); m > 0; m-- {
 			if r.Chance(3, 5) {
@@ -246,14 +302,14 @@ func reloadHistories(r *c.Rng, policies bool, rounds int) []*ReloadCase {
 
 func coqRCfg(policies bool, cf *RCfg, imm bool) string {
 	if !policies {
-		return "(RLoadF " + c.MapList(cf.Flows, func(f Flow) string {
-			return c.Tuple(c.Z(int64(f.ID)), str(f.URL), strs(f.Methods))
+		return "(R2LoadF " + c.MapList(cf.Flows, func(f Flow) string {
+			return c.Tuple(c.Tuple(c.Z(int64(f.ID)), str(f.URL), strs(f.Methods)), c.Tuple(c.B(f.needsBody()), c.B(f.needsCapture())))
 		}) + ")"
 	}
 	dl := c.MapList(cf.Decls, func(d Decl) string {
 		return c.Tuple(str(d.Method), str(d.URL), coqPlugs(d.Rem), coqPlugs(d.Diag))
 	})
-	return "(RLoadP " + dl + " " + c.Tuple(c.MapList(cf.GRem, c.B), c.MapList(cf.GDiag, c.B)) + " " + c.B(imm) + ")"
+	return "(R2LoadP " + dl + " " + c.Tuple(c.MapList(cf.GRem, c.B), c.MapList(cf.GDiag, c.B)) + " " + c.B(imm) + ")"
 }
 
 func coqReloadCase(k *ReloadCase) string {
@@ -262,7 +318,7 @@ func coqReloadCase(k *ReloadCase) string {
 		if s.Op == "load" {
 			op = coqRCfg(k.Policies, s.Cfg, s.Immediate)
 		} else {
-			op = "(RAdvance " + c.Z(s.AdvanceNs) + ")"
+			op = "(R2Advance " + c.Z(s.AdvanceNs) + ")"
 		}
 		return c.Tuple(op, c.Tuple(c.B(s.Loaded), c.B(s.All), strs(s.Managed)))
 	})
@@ -279,6 +335,9 @@ func (r *run) reloadCase(k *ReloadCase) {
 		if i > 0 && s.Op == "advance" && len(s.Managed) < len(k.Steps[i-1].Managed) {
 			fired = true
 		}
+	}
+	if n := requirementOnlyReloads(k); n > 0 {
+		o.CountN("reload:requirement-only-reloads", n)
 	}
 	idx := o.Case(sReload, coqReloadCase(k), k, loads >= 2 && fired)
 	mode := "flows"
@@ -308,6 +367,34 @@ func (r *run) reloadCase(k *ReloadCase) {
 		mini.Steps = append([]RStep{}, k.Steps[:h.step+1]...)
 		o.Hit(c.Hit{Suite: sReload, Index: idx, Signature: h.sig, Demanded: h.demanded, Observed: h.obs, Case: mini})
 	}
+}
+
+// requirementOnlyReloads counts the successful reloads (flows mode) after which a
+// filter of the previous configuration is kept with the same expressions but
+// other requirements (what the generator intends with "requirements").
+func requirementOnlyReloads(k *ReloadCase) int {
+	var prev *RCfg
+	n := 0
+	for _, s := range k.Steps {
+		if s.Op != "load" || !s.Loaded {
+			continue
+		}
+		if prev != nil {
+			changed := false
+			for _, f := range s.Cfg.Flows {
+				for _, g := range prev.Flows {
+					if f.URL == g.URL && fmt.Sprint(f.Methods) == fmt.Sprint(g.Methods) && f.Req != g.Req {
+						changed = true
+					}
+				}
+			}
+			if changed {
+				n++
+			}
+		}
+		prev = s.Cfg
+	}
+	return n
 }
 
 func generateReload(r *run) {
